@@ -45,10 +45,25 @@ static int is_elem(const void *p)
     return q >= arr && q < arr + n * es && (size_t)(q - arr) % es == 0;
 }
 
+/* re-entrancy: in a fraction of the runs the comparison callback itself binary-searches an independent array */
+static unsigned char auxarr[32];
+static int reentrant;
+static int cmp_aux(const void *a, const void *b, void *priv)
+{
+    (void)priv;
+    return (int)*(const unsigned char *)a - (int)*(const unsigned char *)b;
+}
+
 static int cmp_cb(const void *a, const void *b, void *priv)
 {
     CB_ENTER();
     int r;
+    if (reentrant) {
+        unsigned char want = (unsigned char)(key_of(a) % 32);
+        ssize_t at;
+        g_inlib = 1; at = cstl_raw_array_search(auxarr, 32, 1, &want, cmp_aux, NULL); g_inlib = 0;
+        if (at != (ssize_t)want) VIOL("reentrant_search", "a binary search on an independent array, made from inside the comparison callback, returned %zd instead of %u", at, want);
+    }
     (void)priv;
     if (++ncmp > cmpcap) VIOL("no_termination", "%s of %zu elements made more than %llu comparisons", z_opname(g_run.opkind), n, (unsigned long long)cmpcap);
     /* the probe of search/find is a harness object; everything else must be an element of the array */
@@ -97,6 +112,9 @@ static void z_exec(const plan_t *p)
     es = (size_t)p->cfg[CF_ES]; if (es < 1) es = 1; if (es > MAXES) es = MAXES;
     kb = es >= 4 ? 2 : 1;
     n = 0; sorted = 0; arr = NULL;
+    reentrant = (int)(p->cfg[CF_RAND] >> 1 & 7) == 0;
+    { int q; for (q = 0; q < 32; q++) auxarr[q] = (unsigned char)q; }
+    if (reentrant) PROBE("comparator_reenters_library");
     scratch = simheap_alloc(es, TAG_EXT);
     ref = NULL;
     g_cur_prop = "C11";
